@@ -2,7 +2,7 @@
    indexed or not.  Only statements.  The model's child Search is the linear
    scan; that the child R-tree (github.com/tidwall/rtree, outside the model)
    reproduces it is checked on every run with thresholds 0, 1, 2, 64. *)
-From GJ Require Import Base Kernel Series SeriesSpec Pairs Obj ObjSpec ObjProofs.
+From GJ Require Import Base Kernel Series SeriesSpec Pairs Obj ObjSpec ObjProofs BoxLaws ContainsBoxes.
 Open Scope Z_scope.
 
 Theorem C10_empty : forall k cs, o_empty (OColl k cs) = forallb o_empty cs.
@@ -49,6 +49,25 @@ Theorem C10_within : forall k cs g,
   forall c, In c cs -> o_empty c = false /\ rect_intersects_rect (o_rect c) (g_rect g) = true /\ o_within_g c g = true.
 Proof. exact coll_within_spec. Qed.
 
+(* the three composition laws as the property words them: the rectangle pre-filter of Search is implied
+   by the children's own answers (BoxLaws / ContainsBoxes), so it disappears *)
+Theorem C10_intersects_composition : forall k cs x, obj_wf (OColl k cs) -> obj_wf x ->
+  (o_intersects (OColl k cs) x = true <->
+   exists c p, In c cs /\ In p (for_each x) /\ o_empty c = false /\ o_empty p = false /\ o_intersects c p = true).
+Proof. exact coll_intersects_iff. Qed.
+Theorem C10_contains_composition : forall k cs x, obj_wf (OColl k cs) -> obj_wf x ->
+  (o_contains (OColl k cs) x = true <->
+   o_empty (OColl k cs) = false /\ nonempty_parts_c x <> [] /\
+   forall p, In p (nonempty_parts_c x) -> exists c, In c cs /\ o_empty c = false /\ o_contains c p = true).
+Proof. exact coll_contains_iff. Qed.
+Theorem C10_within_composition : forall k cs g, obj_wf (OColl k cs) -> built2 g -> g_wf g ->
+  (o_within_g (OColl k cs) g = true <->
+   o_empty (OColl k cs) = false /\ forall c, In c cs -> o_empty c = false /\ o_within_g c g = true).
+Proof. exact coll_within_iff. Qed.
+
+Print Assumptions C10_intersects_composition.
+Print Assumptions C10_contains_composition.
+Print Assumptions C10_within_composition.
 Print Assumptions C10_rect.
 Print Assumptions C10_search_exact.
 Print Assumptions C10_search_once.
